@@ -51,7 +51,8 @@ def scenario(draw):
     nodes = []
     for i in range(draw(st.integers(0, 3))):
         nodes.append({"follows": draw(st.booleans()) or i == 0,
-                      "params": [draw(gens.fl(-10.0, 10.0)) for _ in range(draw(st.integers(1, 3)))]})
+                      # declared defaults are floats or plain ints (the shipped nodes declare e.g. mag_incl = 0 with dtype f8)
+                      "params": [draw(st.one_of(gens.fl(-10.0, 10.0), st.integers(-10, 10))) for _ in range(draw(st.integers(1, 3)))]})
     logger = draw(st.integers(0, 3)) > 0
     ldt = draw(st.sampled_from([None, 1 / 64.0, 1 / 32.0, 3 / 64.0, 1 / 128.0]))
     procs = []
@@ -564,7 +565,7 @@ def make_machine():
                 return
             raise Violation("a %s message was accepted on topic %s of type %s" % (other.__name__, name, ty.__name__), trace=list(self.trace))
 
-        @rule(n=st.integers(1, 3), follows=st.booleans(), v=st.floats(-10, 10))
+        @rule(n=st.integers(1, 3), follows=st.booleans(), v=st.one_of(st.floats(-10, 10), st.integers(-10, 10)))
         def add_node(self, n, follows, v):
             if self.params_ready or len(self.nodes) >= 3:
                 return
